@@ -582,12 +582,6 @@ func (*Ufs) Read(req *SrvReq) {
 func (*Ufs) Write(req *SrvReq) {
 	fid := req.Fid.Aux.(*ufsFid)
 	tc := req.Tc
-	err := fid.stat()
-	if err != nil {
-		req.RespondError(err)
-		return
-	}
-
 	n, e := fid.file.WriteAt(tc.Data, int64(tc.Offset))
 	if e != nil {
 		req.RespondError(toError(e))
